@@ -68,6 +68,8 @@ def units():
                  lambda m=None: __import__("checks.solution_common", fromlist=["x"]).run_current_density(m, prefixes=("C08.",)), props=["C08", "C20"], timeout=300),
             Unit("uniform_Bz_vector_potential / ConstantField", "tdgl.em:uniform_Bz_vector_potential + tdgl.sources.constant:constant_field_vector_potential",
                  lambda m=None: __import__("checks.field_common", fromlist=["x"]).run_uniform_field(m, prefixes=("C08.", "C04.")), props=["C08", "C04"], timeout=300),
+            Unit("Device.rotate / scale / translate / copy [units kept]", "tdgl.device.device:Device.rotate, Device.scale, Device.translate, Device.copy",
+                 lambda m=None: __import__("checks.c18", fromlist=["x"]).run_device_transforms(m, prefixes=("C08.",)), props=["C08", "C18"], timeout=300),
             Unit("flux per triangle", "lemma over the formula of tdgl.em:uniform_Bz_vector_potential", run_flux, props=["C08", "C04"], timeout=300),
             _h.bounded_unit("physical outputs across unit systems [bounded]", "tdgl.solve / Solution (real runs on one shared mesh)", "C08", _bounded_quick, "same_physical_outputs_in_different_unit_systems[um/mm/nm, static and ramped field]", timeout=900)]
 
@@ -80,6 +82,12 @@ def replay_scope(unit, obl):
 def replay(unit, obl):
     import tdgl
     from checks import physics_native as pn
+    if unit.startswith("Device.rotate"):
+        from checks import c18
+        bad, n = c18.native(0, 3)
+        bad = [b for b in bad if "length units" in b.get("what", "")]
+        if bad:
+            return dict(confirmed=True, failing_input=bad[0], n_failing=len(bad), evaluations=n, tdgl_file=tdgl.__file__)
     if unit.startswith("uniform_Bz_vector_potential"):
         from checks import field_common
         bad, n = field_common.native(0)
